@@ -333,8 +333,10 @@ class World:
             logging.disable(old_disable)
         if from_result and d is not None:
             # the lookup is made at the reading of the *result* (in its own scale): take the day from there
-            mjd_float = us_of(d.datetime) / ts.US_DAY
-            acc = self.acceptable(mjd_float)
+            # (the reading of the result may differ by a microsecond from the datetime its constructor was given)
+            r_us = us_of(d.datetime)
+            mjd_float = r_us / ts.US_DAY
+            acc = self.acceptable(mjd_float) | self.acceptable((r_us - 2) / ts.US_DAY) | self.acceptable((r_us + 2) / ts.US_DAY)
         elif from_result:
             # no result to look at: within 2 ms of a midnight the prediction may be a day off (periodic TDB term, UT1)
             acc = self.acceptable(mjd_float) | self.acceptable(mjd_float - 0.002 / 86400) | self.acceptable(mjd_float + 0.002 / 86400)
